@@ -46,6 +46,7 @@ META = {
 
 
 KNOWN_PANIC_LEAK = "K-C17-panicking-reader-leaks-libyaml-temporaries"
+KNOWN_OVERREPORT_LEAK = "K-C17-over-reporting-reader-panic-leaks-libyaml-temporaries"
 
 
 def _memcheck(rundir, seed, panic_cases):
@@ -57,33 +58,38 @@ def _memcheck(rundir, seed, panic_cases):
 
 
 def run_valgrind(outcome, seed):
-    """Memcheck over the same runs.  Two passes: everything except panicking readers/writers must be clean; with a reader that
-    panics, the unwinding skips libyaml's own cleanup of the token it was scanning (a listed known finding): there, only leaks
-    whose allocation stack lies inside unsafe_libyaml's scanner are tolerated, and nothing else."""
+    """Memcheck over the same runs.  Three passes: everything except panics inside the read callback must be clean; with a
+    reader that panics, and with a reader whose over-report past the buffer makes xt's own chunk reader panic, the unwinding
+    skips libyaml's own cleanup of the token it was scanning (two listed known findings, one per call site): there, only
+    leaks whose allocation stack lies inside unsafe_libyaml's scanner are tolerated, and nothing else."""
     rundir = os.path.join(common.BUILD, "run", "C17_vg")
     os.makedirs(rundir, exist_ok=True)
     try:
         rc, err = _memcheck(rundir, seed, "none")
         rc2, err2 = _memcheck(rundir, seed, "only")
+        rc3, err3 = _memcheck(rundir, seed, "overreport")
     except (FileNotFoundError, subprocess.TimeoutExpired) as e:
         outcome.notes.append("valgrind run not completed: %s" % type(e).__name__)
         return
-    outcome.extra["valgrind"] = {"exit": rc, "stderr_tail": err[-400:], "exit_with_panicking_readers": rc2}
+    outcome.extra["valgrind"] = {"exit": rc, "stderr_tail": err[-400:], "exit_with_panicking_readers": rc2, "exit_with_over_reports_past_the_buffer": rc3}
     if rc == 99 or re.search(r"Invalid (read|write)|uninitialised|definitely lost", err):
         outcome.oracle_failures.append({"what": "valgrind memcheck reports a memory error while driving the YAML binding", "report": err[-3000:]})
-    if re.search(r"Invalid (read|write)|uninitialised|Invalid free|Mismatched free", err2):
-        outcome.oracle_failures.append({"what": "valgrind memcheck reports a memory error when the reader panics", "report": err2[-3000:]})
-    elif "definitely lost" in err2:
-        records = [r for r in err2.split("\n==") if False]
-        blocks = re.split(r"\n==\d+== \n", err2)
-        leaks = [b for b in blocks if "definitely lost" in b]
-        foreign = [b for b in leaks if "unsafe_libyaml::scanner" not in b and "unsafe_libyaml::api::yaml_string_extend" not in b]
-        listed = any(k["id"] == KNOWN_PANIC_LEAK for k in common.load_known("C17"))
-        if foreign or not listed:
-            outcome.oracle_failures.append({"what": "memory is leaked when the reader panics", "report": ("\n".join(foreign) or err2)[-3000:]})
-        else:
-            outcome.known_hits.append((KNOWN_PANIC_LEAK, "a reader that panics while libyaml is scanning a token: %d leak records, all allocated in "
-                                       "unsafe_libyaml's scanner (the unwinding skips its cleanup)" % len(leaks)))
+    for kid, text, who, witness in ((KNOWN_PANIC_LEAK, err2, "the reader panics", "a reader that panics while libyaml is scanning a token"),
+                                    (KNOWN_OVERREPORT_LEAK, err3, "the reader's over-report makes xt's chunk reader panic",
+                                     "a reader that claims more bytes than the 16 KiB buffer holds while libyaml is scanning a token "
+                                     "(ChunkReader::read panics on its slice index inside the read callback)")):
+        if re.search(r"Invalid (read|write)|uninitialised|Invalid free|Mismatched free", text):
+            outcome.oracle_failures.append({"what": "valgrind memcheck reports a memory error when " + who, "report": text[-3000:]})
+        elif "definitely lost" in text:
+            blocks = re.split(r"\n==\d+== \n", text)
+            leaks = [b for b in blocks if "definitely lost" in b]
+            foreign = [b for b in leaks if "unsafe_libyaml::scanner" not in b and "unsafe_libyaml::api::yaml_string_extend" not in b]
+            listed = any(k["id"] == kid for k in common.load_known("C17"))
+            if foreign or not listed:
+                outcome.oracle_failures.append({"what": "memory is leaked when " + who, "report": ("\n".join(foreign) or text)[-3000:]})
+            else:
+                outcome.known_hits.append((kid, "%s: %d leak records, all allocated in unsafe_libyaml's scanner (the unwinding skips its "
+                                           "cleanup)" % (witness, len(leaks))))
 
 
 def run(outcome, tier, seed):
